@@ -376,7 +376,7 @@ func (s *snapshot) clone(P *Program) (map[*ssa.Global]*value, map[*value]interfa
 			}
 			for k := range o.keys {
 				if !o.dead[k] {
-					nm.insert(cl.val(o.keys[k]), cl.val(o.vals[k]))
+					nm.insert(nil, cl.val(o.keys[k]), cl.val(o.vals[k]))
 				}
 			}
 		case *closure:
